@@ -7,7 +7,11 @@ from vlib.driver import norm, type_facts, impls_of
 GENERIC = ["", "a", "A", "abc", "ABC", "a b", " a", "a ", "é", "中文", "😀", "x" * 12, "x" * 40, "0", "-1", "1.5",
            "true", "null", "foo", "bar", "foobar", "555-1234", "ab", "0f3c", "xy", "x123y", "Ab9",
            "550e8400-e29b-41d4-a716-446655440000", "2020-02-29", "2020-02-30", "2021-03-04T05:06:07Z",
-           "10.0.0.1", "::1", "fe80::1", "256.1.1.1"]
+           "10.0.0.1", "::1", "fe80::1", "256.1.1.1",
+           # values of string formats that typify leaves as plain strings (and near-misses of the recognised ones)
+           "2020-01-02T03:04:05", "2020-01-02 03:04:05", "2020-01-02T03:04:05.123", "2021-03-04T05:06:07+01:00",
+           "2021-03-04 05:06:07 UTC", "03:04:05", "03:04:05Z", "P1DT2H", "a@b.example", "http://h/p?q#f", "10.0.0.0/8",
+           "550E8400-E29B-41D4-A716-446655440000", "550e8400e29b41d4a716446655440000", "1970-01-01", "0001-01-01T00:00:00Z"]
 
 
 def probe_strings(res, tname, item, r, extra=()):
@@ -53,7 +57,11 @@ def wire_string_types(res):
         if k == "string":
             r = True
         elif k == "builtin":
-            r = norm(t.get("builtin") or "") in STRING_NATIVES
+            b_ = norm(t.get("builtin") or "")
+            # natives that typify maps string formats to; any OTHER external path can (in documents without replacement
+            # or conversion settings) only stand for a string format as well -- it must not escape the comparison
+            r = b_ in STRING_NATIVES or (b_.startswith("::") and not b_.startswith("::std::num::") and
+                                         "serde_json" not in b_)
         elif k == "newtype":
             r = ws(t["inner"], depth + 1)
         elif k == "enum":
